@@ -24,6 +24,12 @@ func init() {
 
 func c19() []*Ob {
 	return []*Ob{
+		{Prop: "C19", ID: "C19.12", Engine: "PAIR(two sites)", Floor: 1,
+			Desc:  "every partial result is merged once: FetchSearchResult decodes each .qpr file into a new QPR, or AggregatableSamples.UnmarshalJSON replaces its map on every decode",
+			Check: func(c *Ctx) { partialResultDecodedFresh(c) }},
+		{Prop: "C19", ID: "C19.13", Engine: "PAIR(two sites)", Floor: 1,
+			Desc:  "the partial results of a resumed search are found: doSearch leaves the request's fraction list (shared with the stored state and persisted with it) as it is, or loadQPRPaths finds the files by listing the directory, not by that list",
+			Check: func(c *Ctx) { requestFractionsStable(c) }},
 		{Prop: "C19", ID: "C19.11", Engine: "DOM(loop exit)", Floor: 1,
 			Desc: "a resumed search goes through all of its fractions: the loop of AsyncSearcher.doSearch that calls processFrac is left early only on the way to a return — never on to the statement that marks the request done; skipping an already processed fraction is a `continue` (a `break` there ends a search that is resumed after a restart at the first fraction that was done before the restart, and reports it finished)",
 			Check: func(c *Ctx) {
